@@ -465,6 +465,9 @@ def check_cli(P, argv, answers, mode):
 
 
 def check_case(P, case):
+    if case.get("mode") == "subprocess-raw-stdin":
+        check_raw_stdin(P, case["argv"], case["stdin_bytes"].encode("latin-1"))
+        return
     check_cli(P, case["argv"], case["answers"], case["mode"])
 
 
@@ -541,6 +544,8 @@ def shard(P, idx, n, mode, seed):
         check_cli(P, argv, answers, mode)
         if P.evaluations % 97 == 1:
             P.sample({"argv": argv, "answers": answers, "mode": mode})
+    if idx == 1 and mode == "subprocess":
+        raw_stdin_stage(P, seed)
     if idx == 0:
         # end of input at every prompt index, all versions
         for vf, vt in (([], "3.1"), (["-2"], "2"), (["-3"], "3.0"), (["-4"], "4")):
@@ -554,6 +559,54 @@ def shard(P, idx, n, mode, seed):
                 for i in idxs:
                     P.stratum("eof-at-prompt-index")
                     check_cli(P, vf + of + ["-n"], full[:i], mode)
+
+
+def check_raw_stdin(P, argv, stdin_bytes):
+    """Interactive entry fed BYTES that are not text in the terminal's encoding (Latin-1 pasted into a UTF-8 terminal, a
+    stray byte in an answers file): judged for a clean exit only -- status 0, no traceback (finding F12 on the unchanged
+    tree, keyed by this mechanism)."""
+    env = dict(os.environ)
+    env.update({"PYTHONPATH": bootstrap.REPO, "PYTHONIOENCODING": "utf-8", "LC_ALL": "C.UTF-8", "PYTHONDONTWRITEBYTECODE": "1"})
+    case = {"argv": argv, "stdin_bytes": stdin_bytes.decode("latin-1"), "mode": "subprocess-raw-stdin"}
+    P.evaluations += 1
+    P.ev("clean-exit")
+    P.stratum("interactive-input-with-undecodable-bytes")
+    try:
+        p = subprocess.run([sys.executable, "-B", "-m", "cvss.cvss_calculator"] + list(argv), cwd=bootstrap.REPO, env=env,
+                           input=stdin_bytes, stdout=subprocess.PIPE, stderr=subprocess.PIPE, timeout=120)
+    except subprocess.TimeoutExpired:
+        P.notes.append("INCONCLUSIVE:CLI subprocess watchdog fired")
+        return
+    err = p.stderr.decode("utf-8", "replace")
+    if p.returncode != 0 or "Traceback (most recent call last)" in err:
+        last = err.strip().split("\n")[-1] if err.strip() else ""
+        try:
+            stdin_bytes.decode("utf-8")
+            undecodable = False
+        except UnicodeDecodeError:
+            undecodable = True
+        if undecodable and last.startswith("UnicodeDecodeError"):
+            P.violation("clean-exit", "C17:interactive-input-bytes-not-decodable-in-the-terminal-encoding:UnicodeDecodeError", case,
+                        stderr=err[-300:])
+        else:
+            P.violation("clean-exit", "C17:exit-status-%s" % p.returncode if p.returncode else "C17:traceback-printed", case,
+                        stderr=err[-400:])
+
+
+def raw_stdin_stage(P, seed):
+    import random
+    rng = random.Random("C17-raw-%s" % seed)
+    for vf, vt in (([], "3.1"), (["-2"], "2"), (["-3"], "3.0"), (["-4"], "4")):
+        for of in ([], ["-a"]):
+            order, _ = DLG.question_order(vt, bool(of))
+            if order is None:
+                continue
+            ver = DLG.VER_OF[vt]
+            full = [T.VALUES[ver][q][0].encode("ascii") for q in order]
+            k = rng.randrange(len(full))
+            stray = rng.choice([b"\xff", b"\xe9", b"N\xe4", b"\xc3", b"\xed\xa0\x80"])
+            for lines in (full[:k] + [stray] + full[k:], full[:k] + [full[k] + stray] + full[k + 1:]):
+                check_raw_stdin(P, vf + of + ["-n"], b"".join(x + b"\n" for x in lines))
 
 
 def run(R):
